@@ -1,4 +1,160 @@
 import Exetera.Model.MapValid
 import Exetera.Spec.MapValid
+import Exetera.Lemmas.MapValidStream
+/-!
+  C04 — Mapping a column through a join map gives the mapped value or the empty value.
+
+  The theorems are about the executable model `Exetera.MapValid.*` that the driver `Driver/C04.lean` runs
+  (operations.py with fixes D5, D9, D10/D12, D11, NC04a applied) and the specification `Exetera.Spec.mapSpec`.
+  They quantify over all sources, maps, marker values and chunk sizes; there is no size bound.
+-/
 namespace Exetera.Props.C04
+
+open Exetera Exetera.MapValid Exetera.Spec
+
+/-! ## the non-indexed stream -/
+
+/-- **Functional correctness of `ordered_map_valid_stream`.** For every chunk size ≥ 1, every marker value `inv`, every
+    source and every map whose non-marker entries are row numbers of the source in non-decreasing order (markers
+    anywhere): the stream terminates within its fuel, performs no out-of-bounds access (`.ok`), and the destination is
+    exactly the specified column: row `r` is `src[map[r]]`, or `empty` where `map[r] = inv`. -/
+theorem map_stream_eq {α} (src : List α) (m : List Int) (inv : Int) (cs : Nat) (empty : α)
+    (hcs : 1 ≤ cs) (hr : InRange src.length m inv) (hm : ValidMonotone m inv) :
+    ∃ out, orderedMapValidStream src m inv cs empty = .ok out ∧ mapSpec src inv empty m = some out :=
+  stream_spec src m inv cs empty hcs hr hm
+
+/-- row-wise reading of `map_stream_eq`: the destination has the map's length and row `r` is the looked-up value -/
+theorem map_stream_rows {α} (src : List α) (m : List Int) (inv : Int) (cs : Nat) (empty : α)
+    (hcs : 1 ≤ cs) (hr : InRange src.length m inv) (hm : ValidMonotone m inv) :
+    ∃ out, orderedMapValidStream src m inv cs empty = .ok out ∧ out.length = m.length ∧
+      ∀ (r : Nat) (k : Int), m[r]? = some k →
+        (k = inv → out[r]? = some empty) ∧ (k ≠ inv → out[r]? = src[k.toNat]?) := by
+  obtain ⟨out, h1, h2⟩ := stream_spec src m inv cs empty hcs hr hm
+  refine ⟨out, h1, mapSpec_length _ _ _ _ _ h2, ?_⟩
+  intro r k hk
+  have h3 := mapSpec_getElem? _ _ _ _ _ h2 r k hk
+  constructor
+  · intro hki; simp [h3, lookup, hki]
+  · intro hki
+    have := (hr r k hk hki).1
+    simp [h3, lookup, hki, this]
+
+/-- **Chunk size is unobservable.** -/
+theorem chunk_unobservable {α} (src : List α) (m : List Int) (inv : Int) (cs cs' : Nat) (empty : α)
+    (hcs : 1 ≤ cs) (hcs' : 1 ≤ cs') (hr : InRange src.length m inv) (hm : ValidMonotone m inv) :
+    orderedMapValidStream src m inv cs empty = orderedMapValidStream src m inv cs' empty := by
+  obtain ⟨out, h1, h2⟩ := stream_spec src m inv cs empty hcs hr hm
+  obtain ⟨out', h1', h2'⟩ := stream_spec src m inv cs' empty hcs' hr hm
+  rw [h1, h1']
+  rw [h2] at h2'
+  cases h2'
+  rfl
+
+/-- re-encode the marker of a map -/
+def remark (inv inv' : Int) (m : List Int) : List Int := m.map (fun k => if k = inv then inv' else k)
+
+theorem mapSpec_remark {α} (src : List α) (inv inv' : Int) (empty : α) :
+    ∀ (m : List Int), (∀ (i : Nat) (k : Int), m[i]? = some k → k ≠ inv → k ≠ inv') →
+      mapSpec src inv' empty (remark inv inv' m) = mapSpec src inv empty m := by
+  intro m
+  induction m with
+  | nil => intro _; rfl
+  | cons k ks ih =>
+    intro h
+    have hk := h 0 k (by simp)
+    have htl := ih (fun i k' hk' => h (i + 1) k' (by simpa using hk'))
+    have hl : lookup src inv' empty (if k = inv then inv' else k) = lookup src inv empty k := by
+      by_cases hki : k = inv
+      · simp [lookup, hki]
+      · have := hk hki
+        simp [lookup, hki, this]
+    simp only [remark, List.map_cons, mapSpec] at htl ⊢
+    rw [hl, htl]
+
+/-- **Marker parametric.** The result is the same function of "which rows are unmatched" whatever value encodes
+    "unmatched": replacing the marker `inv` by any `inv'` that is not a row number of the source (for instance `-1`,
+    `INVALID_INDEX_32`, `INVALID_INDEX_64` for sources shorter than 2^31-1) leaves the destination unchanged — also
+    across different chunk sizes. -/
+theorem marker_parametric {α} (src : List α) (m : List Int) (inv inv' : Int) (cs cs' : Nat) (empty : α)
+    (hcs : 1 ≤ cs) (hcs' : 1 ≤ cs') (hr : InRange src.length m inv) (hm : ValidMonotone m inv)
+    (hinv' : inv' < 0 ∨ (src.length : Int) ≤ inv') :
+    orderedMapValidStream src (remark inv inv' m) inv' cs' empty = orderedMapValidStream src m inv cs empty := by
+  have hfresh : ∀ (i : Nat) (k : Int), m[i]? = some k → k ≠ inv → k ≠ inv' := by
+    intro i k hk hki
+    have := hr i k hk hki
+    omega
+  have hr' : InRange src.length (remark inv inv' m) inv' := by
+    intro i k hk hki
+    simp only [remark, List.getElem?_map] at hk
+    cases hmi : m[i]? with
+    | none => simp [hmi] at hk
+    | some a =>
+      simp only [hmi, Option.map_some, Option.some.injEq] at hk
+      by_cases ha : a = inv
+      · simp [ha] at hk; exact absurd hk.symm hki
+      · simp [ha] at hk; subst hk; exact hr i a hmi ha
+  have hm' : ValidMonotone (remark inv inv' m) inv' := by
+    intro i j a b hij hi hj ha hb
+    simp only [remark, List.getElem?_map] at hi hj
+    cases hmi : m[i]? with
+    | none => simp [hmi] at hi
+    | some x =>
+      cases hmj : m[j]? with
+      | none => simp [hmj] at hj
+      | some y =>
+        simp only [hmi, hmj, Option.map_some, Option.some.injEq] at hi hj
+        by_cases hx : x = inv
+        · simp [hx] at hi; exact absurd hi.symm ha
+        · by_cases hy : y = inv
+          · simp [hy] at hj; exact absurd hj.symm hb
+          · simp [hx] at hi; simp [hy] at hj; subst hi; subst hj
+            exact hm i j x y hij hmi hmj hx hy
+  obtain ⟨out, h1, h2⟩ := stream_spec src m inv cs empty hcs hr hm
+  obtain ⟨out', h1', h2'⟩ := stream_spec src (remark inv inv' m) inv' cs' empty hcs' hr' hm'
+  rw [mapSpec_remark src inv inv' empty m hfresh, h2] at h2'
+  cases h2'
+  rw [h1, h1']
+
+/-! ### non-vacuity: the hypotheses are met by the trailing-unmatched-rows map that `DataFrame.merge` produces
+    (the D9/D10 witness), and the model computes the specified column on it -/
+
+theorem inRange_of_all {n : Nat} {m : List Int} {inv : Int}
+    (h : m.all (fun k => k == inv || (decide (0 ≤ k) && decide (k < (n : Int)))) = true) : InRange n m inv := by
+  intro i k hk hki
+  have hmem : k ∈ m := List.mem_of_getElem? hk
+  have := List.all_eq_true.mp h k hmem
+  simp [hki] at this
+  exact this
+
+theorem validMonotone_of_pairwise {m : List Int} {inv : Int}
+    (h : List.Pairwise (fun a b => a ≠ inv → b ≠ inv → a ≤ b) m) : ValidMonotone m inv := by
+  intro i j a b hij hi hj ha hb
+  obtain ⟨hil, hia⟩ := List.getElem?_eq_some_iff.mp hi
+  obtain ⟨hjl, hjb⟩ := List.getElem?_eq_some_iff.mp hj
+  by_cases heq : i = j
+  · subst heq; rw [hia] at hjb; omega
+  · have := List.pairwise_iff_getElem.mp h i j hil hjl (by omega)
+    rw [hia, hjb] at this
+    exact this ha hb
+
+example : InRange 3 [0, 1, INVALID_INDEX_32, INVALID_INDEX_32] INVALID_INDEX_32 ∧
+    ValidMonotone [0, 1, INVALID_INDEX_32, INVALID_INDEX_32] INVALID_INDEX_32 :=
+  ⟨inRange_of_all (by decide), validMonotone_of_pairwise (by decide)⟩
+
+example : orderedMapValidStream [10, 20, 30] [0, 1, INVALID_INDEX_32, INVALID_INDEX_32] INVALID_INDEX_32 4 (0 : Int)
+    = .ok [10, 20, 0, 0] := by rfl
+
+example : mapSpec [10, 20, 30] INVALID_INDEX_32 (0 : Int) [0, 1, INVALID_INDEX_32, INVALID_INDEX_32]
+    = some [10, 20, 0, 0] := by decide
+
+/-- markers leading, alternating and filling whole chunks; a gap larger than the chunk; chunk size 2 -/
+example : InRange 9 [-1, -1, 0, -1, 0, 7, -1, -1, -1, 8] (-1) ∧ ValidMonotone [-1, -1, 0, -1, 0, 7, -1, -1, -1, 8] (-1) :=
+  ⟨inRange_of_all (by decide), validMonotone_of_pairwise (by decide)⟩
+
+example : orderedMapValidStream [1, 2, 3, 4, 5, 6, 7, 8, 9] [-1, -1, 0, -1, 0, 7, -1, -1, -1, 8] (-1) 2 (0 : Int)
+    = .ok [0, 0, 1, 0, 1, 8, 0, 0, 0, 9] := by rfl
+
+/-- `marker_parametric`: the -1 map above re-marked with the 64-bit sentinel -/
+example : remark (-1) INVALID_INDEX_64 [-1, 0, 2] = [INVALID_INDEX_64, 0, 2] := by decide
+
 end Exetera.Props.C04
